@@ -268,3 +268,164 @@ pub mod balance {
         )
     }
 }
+
+/// C19: log of the operations performed on [`Output`](crate::Output) values of the
+/// current thread: every `write_str`/`write_char` (each piece of a `write_fmt`)
+/// with the place it was routed to and its result, `begin_capture`,
+/// `end_capture` with the captured value, the values handed to `Emit`, and the
+/// start/end of nested include and super evaluations.
+pub mod output {
+    use std::cell::{Cell, RefCell};
+
+    use crate::value::{Value, ValueRepr};
+
+    /// Where an output routed a write.
+    #[derive(Debug, Clone, PartialEq, Eq)]
+    pub enum Target {
+        /// The writer the output was created over (empty capture stack).
+        Base,
+        /// The capture buffer on top of a capture stack of this depth.
+        Capture(usize),
+        /// Nowhere; a discarding entry is on top of a capture stack of this depth.
+        Discard(usize),
+    }
+
+    /// One logged operation.  `out` identifies the output (numbered per thread
+    /// in creation order, starting at 1).
+    #[derive(Debug, Clone, PartialEq, Eq)]
+    pub enum Event {
+        /// `Output::new` (`null == false`) or `Output::null`.
+        New { out: u64, null: bool },
+        /// `write_str` (also every string piece of a `write_fmt`).
+        WriteStr {
+            out: u64,
+            target: Target,
+            data: String,
+            ok: bool,
+        },
+        /// `write_char` (also every char piece of a `write_fmt`).
+        WriteChar {
+            out: u64,
+            target: Target,
+            data: char,
+            ok: bool,
+        },
+        /// `begin_capture`.
+        BeginCapture { out: u64, discard: bool },
+        /// `end_capture`: the captured string (`None` for a discard) and the
+        /// address of its shared buffer (0 if it has none).
+        EndCapture {
+            out: u64,
+            value: Option<String>,
+            ptr: usize,
+        },
+        /// `Instruction::Emit` is about to format this value into `out`: its
+        /// string content if it is a string, and the address of its shared
+        /// buffer (0 if it has none).
+        Emit {
+            out: u64,
+            value: Option<String>,
+            ptr: usize,
+        },
+        /// A nested evaluation (`"include"` or `"super"`) starts writing to `out`.
+        Enter { out: u64, kind: &'static str },
+        /// It returned.
+        Leave {
+            out: u64,
+            kind: &'static str,
+            ok: bool,
+        },
+    }
+
+    thread_local! {
+        static ON: Cell<bool> = const { Cell::new(false) };
+        static NEXT: Cell<u64> = const { Cell::new(0) };
+        static LOG: RefCell<Vec<Event>> = const { RefCell::new(Vec::new()) };
+    }
+
+    /// Starts (and clears) the log of this thread.
+    pub fn start() {
+        LOG.with(|l| l.borrow_mut().clear());
+        ON.with(|x| x.set(true));
+    }
+
+    /// Stops logging and returns the log.
+    pub fn stop() -> Vec<Event> {
+        ON.with(|x| x.set(false));
+        LOG.with(|l| std::mem::take(&mut *l.borrow_mut()))
+    }
+
+    #[inline]
+    fn log(f: impl FnOnce() -> Event) {
+        if ON.with(|x| x.get()) {
+            let ev = f();
+            LOG.with(|l| l.borrow_mut().push(ev));
+        }
+    }
+
+    fn str_ptr(value: &Value) -> usize {
+        match value.0 {
+            ValueRepr::String(ref s, _) => s.as_ptr() as usize,
+            _ => 0,
+        }
+    }
+
+    pub(crate) fn on_new(null: bool) -> u64 {
+        let out = NEXT.with(|x| {
+            x.set(x.get() + 1);
+            x.get()
+        });
+        log(|| Event::New { out, null });
+        out
+    }
+
+    #[inline]
+    pub(crate) fn on_write_str(out: u64, target: impl FnOnce() -> Target, s: &str, ok: bool) {
+        log(|| Event::WriteStr {
+            out,
+            target: target(),
+            data: s.to_string(),
+            ok,
+        });
+    }
+
+    #[inline]
+    pub(crate) fn on_write_char(out: u64, target: impl FnOnce() -> Target, c: char, ok: bool) {
+        log(|| Event::WriteChar {
+            out,
+            target: target(),
+            data: c,
+            ok,
+        });
+    }
+
+    pub(crate) fn on_begin_capture(out: u64, discard: bool) {
+        log(|| Event::BeginCapture { out, discard });
+    }
+
+    pub(crate) fn on_end_capture(out: u64, value: &Value) {
+        log(|| Event::EndCapture {
+            out,
+            value: value.as_str().map(|s| s.to_string()),
+            ptr: str_ptr(value),
+        });
+    }
+
+    pub(crate) fn on_emit(out: u64, value: &Value) {
+        log(|| Event::Emit {
+            out,
+            value: value.as_str().map(|s| s.to_string()),
+            ptr: str_ptr(value),
+        });
+    }
+
+    #[cfg_attr(not(feature = "multi_template"), allow(dead_code))]
+    pub(crate) fn on_enter(out: u64, kind: &'static str) {
+        log(|| Event::Enter { out, kind });
+    }
+
+    #[cfg_attr(not(feature = "multi_template"), allow(dead_code))]
+    pub(crate) fn on_leave(out: u64, kind: &'static str, ok: bool) {
+        log(|| Event::Leave { out, kind, ok });
+    }
+}
